@@ -59,6 +59,7 @@ void orc_c02_loop_end(LoopRun &lr) {
         if (sd.gseq > lr.end_gseq) continue;
         for (int e : sd.eligible) {
             if (sd.delivered.count(e) || sd.dead.count(e) || sd.unknown.count(e) || has(sd.overflow, e)) continue;
+            if (sd.oneshot_matched.count(e)) continue;   // matched through a one-shot subscription only: it fires once, for whichever matching message is received first
             Slot &r = W->slots[e];
             // RUNNING when the loop run ends. It need not have been RUNNING throughout: a message for a PAUSED module waits in its mailbox
             // and is handed over after the resume (a stop in between, or a loop end while PAUSED, discards it: 'dead'/'unknown' above);
